@@ -141,6 +141,45 @@ class cpu_budget(object):
         return False
 
 
+class bounded_key_generation(object):
+    """A mutated but decodable CreateKeyPair may ask for an RSA key of a million bits; the backend would oblige for hours
+    inside one C call, where no timer of the harness can interrupt it (and the statement of C12 says nothing about how long a
+    valid request may take).  While a stream is served the backend's RSA key generation refuses sizes above 4096 bits - a
+    fault injected at the backend boundary, counted, which the server turns into an error answer like any other."""
+    refused = 0
+
+    def __enter__(self):
+        from kmip.services.server.crypto import engine as ce_mod
+        self.mod = ce_mod.rsa
+        self.real = self.mod.generate_private_key
+
+        def guarded(public_exponent, key_size, *a, **kw):
+            if isinstance(key_size, int) and key_size > 4096:
+                bounded_key_generation.refused += 1
+                raise ValueError('kv harness: RSA key generation of %d bits is beyond the workload budget' % key_size)
+            return self.real(public_exponent, key_size, *a, **kw)
+        self.mod.generate_private_key = guarded
+        # the same for a PBKDF2 with an iteration count or an output length only a mutation would ask for
+        self.kdf = ce_mod.pbkdf2
+        self.real_kdf = self.kdf.PBKDF2HMAC
+        real_kdf = self.real_kdf
+
+        def guarded_kdf(*a, **kw):
+            if (kw.get('iterations') or 0) > 100000 or (kw.get('length') or 0) > 2 ** 20:
+                bounded_key_generation.refused += 1
+                raise ValueError('kv harness: PBKDF2 with %r iterations / %r bytes is beyond the workload budget'
+                                 % (kw.get('iterations'), kw.get('length')))
+            return real_kdf(*a, **kw)
+        self.kdf.PBKDF2HMAC = guarded_kdf
+        return self
+
+    def __exit__(self, *a):
+        self.mod.generate_private_key = self.real
+        self.kdf.PBKDF2HMAC = self.real_kdf
+        return False
+
+
+
 class busy_reader(object):
     """Another connection in the middle of reading the database file: it holds SQLite's shared lock, so a writer can
     prepare its transaction but its COMMIT finds the database locked (after the busy time-out, which the harness sets
